@@ -47,7 +47,7 @@ impl<'a> RegExp<'a> {
         #[cfg(grex_verif)]
         crate::verif_hooks::record(|| crate::verif_hooks::Event::Expression(ast.to_string()));
 
-        if config.is_start_anchor_disabled && config.is_end_anchor_disabled {
+        if config.is_end_anchor_disabled {
             let mut regex = Self::convert_expr_to_regex(&ast, config);
 
             if config.is_verbose_mode_enabled {
@@ -67,12 +67,25 @@ impl<'a> RegExp<'a> {
                 regex = Self::convert_expr_to_regex(&ast, config);
 
                 if !Self::regex_matches_all_test_cases(&regex, test_cases) {
-                    let mut exprs = vec![];
-                    for cluster in grapheme_clusters {
-                        let literal = Expression::new_literal(cluster, config);
-                        exprs.push(literal);
-                    }
-                    ast = Expression::new_alternation(exprs, config);
+                    // Longer test cases must be tried first, otherwise a shorter
+                    // test case being a prefix of a longer one would win the search.
+                    let mut exprs = grapheme_clusters
+                        .into_iter()
+                        .zip(test_cases.iter())
+                        .map(|(cluster, test_case)| {
+                            (
+                                test_case.chars().count(),
+                                Expression::new_literal(cluster, config),
+                            )
+                        })
+                        .collect_vec();
+                    exprs.sort_by_key(|(char_count, _)| std::cmp::Reverse(*char_count));
+                    ast = Expression::Alternation(
+                        exprs.into_iter().map(|(_, expr)| expr).collect_vec(),
+                        config.is_capturing_group_enabled,
+                        config.is_output_colorized,
+                        config.is_verbose_mode_enabled,
+                    );
                 }
             }
         }
@@ -137,9 +150,11 @@ impl<'a> RegExp<'a> {
     }
 
     fn regex_matches_all_test_cases(regex: &Regex, test_cases: &[String]) -> bool {
-        test_cases
-            .iter()
-            .all(|test_case| regex.find_iter(test_case).count() == 1)
+        test_cases.iter().all(|test_case| {
+            regex
+                .find(test_case)
+                .is_some_and(|m| m.start() == 0 && m.end() == test_case.len())
+        })
     }
 
     fn sort(test_cases: &mut Vec<String>) {
